@@ -99,12 +99,13 @@ def programs(kind, tier, seed):
         except T.ParseError: continue
         if set(acs) == set(names) and all(T.atoms(f) <= set(names) for f in acs.values()) and (big or len(names) <= 6): progs.append((txt, names, acs, 'repo'))
     if tier == 'quick': progs = progs[:6]
-    k = (160 if tier == "quick" else 1000) if big else (30 if tier == "quick" else 200)
+    k = (160 if tier == "quick" else 1000) if big else (30 if tier == "quick" else 200) if kind == 'complete' else (90 if tier == "quick" else 400)
     for i in range(k):
         if big: n = rng.choice([4, 5, 6, 8, 10, 15, 25, 40, 60, 70, 90, 130] if i % 5 else [70, 90, 130, 300])
         elif kind == 'complete': n = rng.choice([2, 3, 4, 5] if tier == 'quick' else [2, 3, 4, 5, 6])
         else: n = rng.choice([2, 3, 4, 5, 6] if tier == 'quick' else [3, 4, 5, 6, 7, 8])
-        if i % 6 == 3: names, acs = T.rand_adf_colliding(rng, 6 if not big else rng.choice([6, 8, 10]))
+        if not big and i % 3 == 1: names, acs = T.rand_adf_attacks(rng, n)
+        elif i % 6 == 3: names, acs = T.rand_adf_colliding(rng, 6 if not big else rng.choice([6, 8, 10]))
         elif i % 2 == 0: names, acs = T.rand_adf_structured(rng, n)
         else: names, acs = T.rand_adf(rng, n, rng.choice([1, 2, 3, 5]), locality=3 if n > 8 else None)
         facts = [('s', x) for x in names] + [('ac', x) for x in names]
